@@ -413,8 +413,74 @@ def _strace_instance(arg):
     return out
 
 
+def check_natural_failures(ctx):
+    """Operations whose OWN input makes a statement fail (or the library give up) part-way, no fault injected: the call is refused and the
+    file is as before - or it returns normally and the complete item is stored. Nothing in between."""
+    import pandas
+    import pygaps
+    from pygaps.parsing import sqlite as q
+    ev = nt = 0
+    sdir = core.scratch()
+
+    def point_with(extra):
+        return pygaps.PointIsotherm(isotherm_data=pandas.DataFrame(dict({'pressure': [1.0, 2.0, 3.0, 4.0], 'loading': [1.0, 2.0, 3.0, 3.5]}, **extra)), pressure_key='pressure',
+                                    loading_key='loading', material={'name': 'matN', 'density': 1.25}, adsorbate='gasA', temperature=300.0, note='n', **rs.UNITS)
+
+    cases = [
+        ('empty', 'material_to_db(one property None)', lambda w: q.material_to_db(pygaps.Material('matN', density=2.5, batch='B-17', comment=None), db_path=w, verbose=False)),
+        ('empty', 'material_to_db(first property None)', lambda w: q.material_to_db(pygaps.Material('matN', comment=None, density=2.5), db_path=w, verbose=False)),
+        ('with-m1', 'material_to_db(matA, one property None, overwrite=True)',
+         lambda w: q.material_to_db(pygaps.Material('matA', density=9.0, comment=None, batch='b'), db_path=w, overwrite=True, verbose=False)),
+        ('empty', 'adsorbate_to_db(one property None)', lambda w: q.adsorbate_to_db(pygaps.Adsorbate('gasN', formula='N', molar_mass=None, note='x'), db_path=w, verbose=False)),
+        ('with-a1', 'adsorbate_to_db(gasA, one property None, overwrite=True)',
+         lambda w: q.adsorbate_to_db(pygaps.Adsorbate('gasA', formula='A_{9}', t_critical=None, molar_mass=3.0), db_path=w, overwrite=True, verbose=False)),
+        ('with-a1', 'isotherm_to_db(integer extra column, autoinsert_material=True)',
+         lambda w: q.isotherm_to_db(point_with({'cycle': [1, 1, 2, 2]}), db_path=w, autoinsert_material=True, verbose=False)),
+        ('with-a1', 'isotherm_to_db(boolean extra column, autoinsert_material=True)',
+         lambda w: q.isotherm_to_db(point_with({'flagged': [True, False, True, False]}), db_path=w, autoinsert_material=True, verbose=False)),
+        ('with-a1', 'isotherm_to_db(metadata value None, autoinsert_material=True)',
+         lambda w: q.isotherm_to_db(pygaps.PointIsotherm(pressure=[1.0, 2.0], loading=[1.0, 2.0], material={'name': 'matN', 'density': 1.25}, adsorbate='gasA', temperature=300.0,
+                                                         remark=None, **rs.UNITS), db_path=w, autoinsert_material=True, verbose=False)),
+        ('with-a1', 'isotherm_to_db(auto-inserted material has a None property)',
+         lambda w: q.isotherm_to_db(pygaps.PointIsotherm(pressure=[1.0, 2.0], loading=[1.0, 2.0], material={'name': 'matN', 'density': 1.25, 'comment': None}, adsorbate='gasA',
+                                                         temperature=300.0, **rs.UNITS), db_path=w, autoinsert_material=True, verbose=False)),
+    ]
+    for prep, label, fn in cases:
+        def task():
+            prepared = os.path.join(sdir, 'nat-prepared.db')
+            work = os.path.join(sdir, 'nat-work.db')
+            before = _prepare(prep, prepared)
+            fresh_copy(prepared, work)
+            c08.universe('registered')
+            o = core.call(fn, work)
+            raw = rs.read_raw(work)
+            unchanged = not before.diff(raw)
+            orphans = raw.get('orphans')
+            o2 = core.call(fn, work)           # the same call again in the same session: same outcome class
+            return o.ok, o.brief()[:200], unchanged, orphans, before.diff(raw)[:3], o2.ok
+        try:
+            ok, brief, unchanged, orphans, diff, ok2 = ef.in_fork(task)
+        except RuntimeError as e:
+            raise core.HarnessError(f'{label}: {e}')
+        ev += 1
+        nt += 1
+        if not ok and not unchanged:
+            ctx.violate(core.make_violation({'check': 'refused-call-left-rows-behind', 'op': label.split('(')[0]},
+                                            f'{label} on {prep!r} database: the call was refused ({brief}) but the file changed: {diff}', {'op': label, 'preparation': prep}))
+        elif ok and (orphans or unchanged):
+            ctx.violate(core.make_violation({'check': 'accepted-call-incomplete', 'op': label.split('(')[0]},
+                                            f'{label} on {prep!r} database: the call returned normally but {"nothing was stored" if unchanged else "orphan rows exist: %s" % orphans}', {'op': label}))
+        elif ok:
+            # an accepted call must have stored the COMPLETE item: no property silently left out
+            ctx.violate(core.make_violation({'check': 'input-with-unstorable-part-accepted', 'op': label.split('(')[0]},
+                                            f'{label} on {prep!r} database: the input contains a value the schema cannot hold, yet the call returned normally; the file now differs from before by {diff}',
+                                            {'op': label})) if 'None' in label else None
+    ctx.add('natural_failures', ev, nt)
+
+
 def run(ctx):
     c08.base_registries()
+    check_natural_failures(ctx)
     faults = [('raise-instead', e) for e in EXC] + [('raise-after', e) for e in EXC] + [('exit-before', None), ('exit-after', None)]
     instances = INSTANCES
     bound2 = True
